@@ -32,11 +32,33 @@ def evaluate(case: Dict[str, Any]) -> Dict[str, Any]:
     x0 = np.clip(p.x0 + (rng.uniform(-0.3, 0.3, p.n) if r.random() < 0.5 else 0.0), p.lb, p.ub)
     rec = Recorder()
 
+    nested = bool(case.get("nested"))
+    inner_runs = [0]
+
+    def inner_search():
+        """a second line search, with the same tolerances, run while the outer one is in progress (the objective of the
+        outer problem is itself computed with the package: value function of an inner problem)"""
+        rec_outer, _tls.rec = _tls.rec, None
+        try:
+            c_ = np.array([0.3, -0.2])
+            fi = lambda z: float(0.5 * np.sum((z - c_) ** 2))   # noqa: E731
+            gi = lambda z: z - c_                               # noqa: E731
+            z0 = np.array([4.0, 3.0])
+            lbi, ubi = np.array([-1e6, -1e6]), np.array([1e6, 1e6])
+            sfi = prepare_scalar_function(fi, z0.copy(), jac=gi, bounds=(lbi, ubi))
+            # a short direction: the inner search has to extrapolate (its minimiser along the ray is at a step of 100)
+            M.line_search(z0.copy(), fi(z0), gi(z0), -0.01 * gi(z0), lbi, ubi, 1, 1e8, True, sfi, ftol, gtol, xtol, 20)
+            inner_runs[0] += 1
+        finally:
+            _tls.rec = rec_outer
+
     def f(x):
         k = pkey(x)
         rec.calls.append(("F", k))
         v = p.fun(x)
         rec.F[k] = fhex(v)
+        if nested:
+            inner_search()
         return v
 
     def g(x):
@@ -73,7 +95,7 @@ def evaluate(case: Dict[str, Any]) -> Dict[str, Any]:
     out["tags"] += [f"family={p.desc['family']}", f"above_iter={above_iter}", f"cap<={5 * ((cap + 4) // 5)}",
                     f"returned={'None' if stp is None else 'step'}",
                     f"last_task={task_class(ent['dc'][-1]['out'][1]) if ent['dc'] else 'none'}",
-                    f"trials={min(nF, 6)}"]
+                    f"trials={min(nF, 6)}", f"nested_search_inside_objective={nested and inner_runs[0] > 0}"]
     # ---- the property on the real call
     for kind, key in rec.calls:
         v = np.array(hexv(key))
@@ -149,12 +171,13 @@ def evaluate(case: Dict[str, Any]) -> Dict[str, Any]:
 
 def run(tier: str, seed: int) -> int:
     n = 2000 if tier == "quick" else 50000
-    cases = [{"seed": seed * 1_000_003 + i, "families": ["qp", "qp_quartic", "osc", "osc", "rosen", "styb", "steep", "badscale"]}
+    cases = [{"seed": seed * 1_000_003 + i, "families": ["qp", "qp_quartic", "osc", "osc", "rosen", "styb", "steep", "badscale"],
+              "nested": i % 6 == 5}
              for i in range(n)]
     return run_property(
         PROP, "harness.props.c11", THEOREMS, MODULES, cases, tier, seed,
         rule="stand-alone calls of line_search: convex and oscillating non-convex objectives, feasible start, direction obtained by "
-             "projecting a gradient step, iteration index 0 or later, caps 1..20, tolerances; evaluated points / count / returned step "
+             "projecting a gradient step, iteration index 0 or later, caps 1..20, tolerances, a sixth of the calls with an objective that itself runs a line search (same tolerances) at every evaluation; evaluated points / count / returned step "
              "checked on the real call; the call is replayed through the Lean model with the recorded DCSRCH answers; non-trivial = "
              "at least two objective evaluations",
         assumptions=["in the driver-level theorems DCSRCH (SciPy) is an arbitrary oracle; its Lean model (Model/Dcsrch.lean) is compared bit for bit "
